@@ -862,8 +862,13 @@ def gen_hist(rng, csl, ml, kinds):
     n = rng.choice([1, 2, 3, 4, 6, 8])
     k = gen_k(rng) if rng.random() < 0.5 else rng.choice([2, 7, 5, -2, 1, -1, 3, 4, 9, 11, -5, 12])
     mn, mx = gen_range(rng)
-    if (mx - mn < 12 and rng.random() < 0.7) or mn < 0:
-        mn, mx = 0, 128      # (a negative lower bound can leave events below -2 in a melody, which no constructor - hence no deepcopy - accepts)
+    if (mx - mn < 12 and (rng.random() < 0.7 or mx < 12 or mn > 116)) or mn < 0:
+        # (a negative lower bound - or a range narrower than an octave whose upper fold `max_note - 12 + …` goes below zero, i.e.
+        # max_note < 12 - can leave events below -2 in a melody, which no constructor - hence no deepcopy - accepts; found by a
+        # thorough run: the later deepcopy raised ValueError inside the library and the history was reported.  Such ranges are
+        # outside the statement's quantifier (max_note - min_note >= 12); narrow ranges stay in the histories only where every
+        # folded value is a legal pitch)
+        mn, mx = 0, 128
 
     def obj(t):
         raw = (gen_events(rng, k) + [rng.choice([-2, -1, rng.randrange(128)]) for _ in range(n)])[:n]
